@@ -50,3 +50,14 @@ func init() {
 	register("C13", ruleQRTables, ruleDataMatrixTables)
 	register("C17", ruleGFConstruction())
 }
+
+func init() {
+	register("C09", ruleScale)
+}
+
+func init() {
+	register("C01", ruleQRFormulas)
+	register("C12", ruleQRFormulas)
+	register("C13", ruleQRFormulas)
+	register("C10", ruleQRFormulas)
+}
